@@ -216,7 +216,7 @@ def violation_classes(scn: Scenario, case: dict) -> list[str]:
 
 def minimise(scn: Scenario, case: dict, cls: str, max_execs: int = 3000, max_seconds: float = 30.0) -> tuple[dict, int]:
     def test(c: dict) -> bool:
-        return cls in violation_classes(scn, c)[:1]
+        return cls in violation_classes(scn, c)
 
     # a sweep case names the failing schedule: continue with that explicit schedule
     first = run_case(scn, case)
@@ -253,7 +253,7 @@ def write_replay(
         "verif_seed": verif_seed,
         "case_index": index,
         "violation_class": cls,
-        "message": out.violations[0][1] if out.violations else msg,
+        "message": next((m for c, m in out.violations if c == cls), msg),
         "digest": out.digest,
         "case": case,
         "trace": out.trace[:200],
